@@ -299,7 +299,7 @@ def json_op(op):
     return "%s(%s)" % ({"n": "addNode", "e": "addEdge", "r": "run_routing_forward", "d": "shortest_distance", "l": "shortest_distance[list]",
                         "a": "all_shortest_distances", "p": "prepare", "q": "prepared_shortest_distance",
                         "h": "has_prepared_shortest_distance", "s": "sub_network", "v": "save_prep+load_prep",
-                        "c": "Network", "m": "setRoutingMethod", "w": "setAStarWeight"}[op[0]], ",".join(str(x) for x in op[1:]))
+                        "c": "Network", "m": "setRoutingMethod", "w": "setAStarWeight", "x": "sub_network[kept]", "W": "edge.weight="}[op[0]], ",".join(str(x) for x in op[1:]))
 
 
 def dtok(x):
@@ -452,6 +452,8 @@ class SessOracle:
         k = op[0]
         has_dump = (k in "rd" and op[4]) or (k == "l" and op[3]) or (k == "a" and op[2])
         end = pos + (1 if has_dump else 0)
+        if r == "err" and k in "rdlsx" and any(v is not None and v not in nodes for v in ([op[1], op[2]] if k in "rd" else [op[1]])):
+            return None, False, end     # a node this network does not hold (see SessRunner.call): the call was not made
         if isinstance(r, str) and r not in ("ok",):
             return "%s: %s" % (what, r), False, end
         if k == "n":
@@ -550,6 +552,8 @@ class SessOracle:
             elif D[key][1] == ver:
                 if (k == "q" and not self.eq(r[1], D[key][0])) or (k == "h" and r[1] != 1):
                     return "%s = %s, expected the prepared distance %s" % (what, r[1], nc.tok(D[key][0])), False, end
+        elif k == "x":
+            pass        # the returned network becomes a member of the family, judged on its own edge list (`extracted`)
         elif k == "s":
             # the returned object is a Network: its own distances must be right (its Node objects are shared with `net`)
             ids, eids, probe = r[1], r[2], r[3]
@@ -563,15 +567,189 @@ class SessOracle:
         return None, False, end
 
 
+def has_dump(op):
+    """the call passes the caller's dictionary as output_dict: its record is followed by a dump of that dictionary"""
+    return bool((op[0] in "rd" and op[4]) or (op[0] == "l" and op[3]) or (op[0] == "a" and op[2]))
+
+
+def extracted_oracle(parent, rec):
+    """the oracle of a network returned by `sub_network` and kept by the caller: the property is about the distances a
+    network reports on ITS OWN edges, so its graph is read off the returned object (`rec` = its node ids and edge ids; the
+    Edge objects are the parent's) — which edges sub_network selects is outside the statement (compared with the model)"""
+    o = SessOracle(parent.n, pos=parent.pos, tol=parent.tol)
+    if isinstance(rec, list) and len(rec) >= 3 and rec[0] == "s":
+        o.nodes = list(rec[1])
+        o.edges = [list(e) for e in parent.edges if e[0] in set(rec[2])]
+        for e in o.edges:
+            for v in (e[1], e[2]):
+                if v not in o.nodes:
+                    o.nodes.append(v)
+    return o
+
+
+# ---------------------------------------------------------------------------------------------------
+# families: several Network objects built on ONE pool of Node objects (Model/GraphShared.lean). sub_network() returns a
+# network that holds its parent's Node objects; a caller may also fill a second Network() with nodes of the first.
+# case: {"kind": "fam", "n": n, "ids": "int"|"str", "ops": [[k, op], ...]}; op = a session op on member k (minus `v`),
+#   ["c"] Network() (member k = number of members so far) · ["x", s, cut, obj] members.append(members[k].sub_network(s, cut))
+#   ["W", eid, w] members[k].getEdge(eid).weight = w (k = a member holding the edge; as the library is, an extract holds its parent's
+#   Edge objects, so every member holding the edge sees the new weight — the oracle does not rely on that). Edge ids are unique in a family.
+# ---------------------------------------------------------------------------------------------------
+def fam_members(case):
+    """replays the generator's view of a family: per member its edges and known nodes (an extract's content is predicted
+    with Floyd-Warshall on its parent); None when an op addresses a member that does not exist (yet)"""
+    n = case["n"]
+    mem = []
+    for k, op in case["ops"]:
+        if op[0] == "c":
+            if k != len(mem):
+                return None
+            mem.append({"nodes": [], "edges": [], "ops": []})
+            continue
+        if not 0 <= k < len(mem):
+            return None
+        M = mem[k]
+        if op[0] == "W":
+            if not any(e[0] == op[1] for e in M["edges"]):
+                return None
+            for X in mem:
+                for e in X["edges"]:
+                    if e[0] == op[1]:
+                        e[3] = op[2]
+            continue
+        if op[0] == "x":
+            d = nc.floyd_warshall(n, M["edges"])
+            c = cutval(op[2] if op[2] == "none" else nc.tok(nc.num(op[2])))
+            keep = [e for e in M["edges"] if op[1] in M["nodes"] and within(d[op[1]][e[1]], c) and within(d[op[1]][e[2]], c)]
+            nodes = []
+            for e in keep:
+                for v in (e[1], e[2]):
+                    if v not in nodes:
+                        nodes.append(v)
+            M["ops"].append(["s"] + op[1:])
+            mem.append({"nodes": nodes, "edges": [list(e) for e in keep], "ops": [["e"] + list(e) for e in keep]})
+            continue
+        M["ops"].append(op)
+        if op[0] == "n" and op[1] not in M["nodes"]:
+            M["nodes"].append(op[1])
+        if op[0] == "e":
+            M["edges"].append(op[1:])
+            for v in (op[2], op[3]):
+                if v not in M["nodes"]:
+                    M["nodes"].append(v)
+    return mem
+
+
+def fam_valid(case):
+    """members are created before they are used; each member's calls form a valid session (known nodes, fresh edge ids)"""
+    mem = fam_members(case)
+    eids = [op[1] for _, op in case["ops"] if op[0] == "e"]
+    return mem is not None and len(eids) == len(set(eids)) and all(sess_valid({"n": case["n"], "ops": M["ops"]}) for M in mem)
+
+
+def random_family(rng):
+    """a network, extracts of it (and of extracts), sometimes a second Network() filled with the same Node objects; searches
+    of every form on all of them interleaved, edges added to any of them along the way"""
+    n = rng.randint(3, 8)
+    ops = [[0, ["c"]]]
+    eid = [0]
+    case = {"kind": "fam", "n": n, "ids": rng.choice(["int", "int", "str"]), "ops": ops}
+    cut = lambda: rng.choice(SESS_CUTS)
+    xcut = lambda: rng.choice([0, 1, 1, 2, 2, 3, "3/2", 5, "none"])
+    obj = lambda: rng.choice([0, 0, 0, 1, 2])
+    wgt = lambda: rng.choice([0, 1, 1, 1, 1, 2, 3, "1/2"])
+    def edge(k, a, b):
+        ops.append([k, ["e", eid[0], a, b, wgt(), rng.choice([-1, 0, 0, 0, 0, 1])]])
+        eid[0] += 1
+    # the first network: a chain, a ring or a random skeleton, so that a cut-off extract is a proper part of it
+    perm = list(range(n)); rng.shuffle(perm)
+    style = rng.random()
+    for i in range(1, n):
+        edge(0, perm[i - 1] if style < 0.6 else perm[rng.randrange(i)], perm[i])
+    for _ in range(rng.randint(0, 3)):
+        edge(0, rng.randrange(n), rng.randrange(n))
+    prep_heavy = rng.random() < 0.2       # a fifth of the families work mostly with prepared tables (DISTANCES of every member)
+    for step in range(rng.randint(6, 30)):
+        mem = fam_members(case)
+        live = [k for k, M in enumerate(mem) if M["nodes"]]
+        r = rng.random()
+        if prep_heavy and live and rng.random() < 0.5:
+            k = rng.choice(live)
+            if rng.random() < 0.3 or not any(o[0] == "p" for o in mem[k]["ops"]):
+                ops.append([k, ["p", cut()]])
+            else:
+                ops.append([k, [rng.choice(["q", "q", "h"]), rng.choice(mem[k]["nodes"]), rng.choice(mem[k]["nodes"]), obj()]])
+            continue
+        if r < 0.16 and len(mem) < 5 and live:
+            k = rng.choice(live)
+            ops.append([k, ["x", rng.choice(mem[k]["nodes"]), xcut(), obj()]])
+            continue
+        if r < 0.19 and len(mem) < 5:
+            ops.append([len(mem), ["c"]])
+            a, b = rng.randrange(n), rng.randrange(n)
+            edge(len(mem), a, b)
+            continue
+        k = rng.randrange(len(mem)) if rng.random() < 0.3 else (rng.choice(live) if live else 0)
+        nodes = mem[k]["nodes"]
+        if mem[k]["edges"] and rng.random() < 0.07:
+            ops.append([k, ["W", rng.choice(mem[k]["edges"])[0], wgt()]])
+            continue
+        if not nodes or r < 0.27:
+            a = rng.choice(nodes) if nodes and rng.random() < 0.6 else rng.randrange(n)
+            edge(k, a, rng.randrange(n))
+        elif r < 0.30:
+            ops.append([k, ["n", rng.randrange(n)]])
+        elif r < 0.62:
+            ops.append([k, ["d", rng.choice(nodes), rng.choice(nodes), cut(), rng.choice([0, 0, 0, 1]), obj()]])
+        elif r < 0.70:
+            ops.append([k, ["l", rng.choice(nodes), cut(), rng.choice([0, 0, 1]), obj()]])
+        elif r < 0.80:
+            ops.append([k, ["r", rng.choice(nodes), rng.choice(nodes + [None, None]), cut(), rng.choice([0, 0, 1]), obj()]])
+        elif r < 0.86:
+            ops.append([k, ["a", cut(), rng.choice([0, 0, 1])]])
+        elif r < 0.92:
+            ops.append([k, ["p", cut()]])
+        elif r < 0.98 and any(o[0] == "p" for o in mem[k]["ops"]):
+            ops.append([k, [rng.choice(["q", "q", "h"]), rng.choice(nodes), rng.choice(nodes), obj()]])
+        else:
+            ops.append([k, ["s", rng.choice(nodes), xcut(), obj()]])
+    return case
+
+
+def enum_families(tier):
+    """exhaustive small scope of the shared-Node situation: a 3-node path (network A), B = A.sub_network(s0, c0) kept, then every
+    sequence of three searches in the pattern A B A and B A B, each search being any list-form or pair-form call on nodes the
+    network holds. quick: the two-way unit path; thorough: also the one-way path and a path with a zero-weight edge."""
+    graphs = [[[0, 0, 1, 1, 0], [1, 1, 2, 1, 0]]]
+    if tier == "thorough":
+        graphs += [[[0, 0, 1, 1, 1], [1, 1, 2, 1, 1]], [[0, 0, 1, 0, 0], [1, 2, 1, 2, -1]]]
+    def calls(nodes):
+        return [["l", s, "none", 0, 0] for s in nodes] + [["d", s, t, "none", 0, 0] for s in nodes for t in nodes if s != t]
+    out = []
+    for g in graphs:
+        head = [[0, ["c"]]] + [[0, ["e"] + e] for e in g]
+        for s0 in range(3):
+            for c0 in (0, 1, "none"):
+                pre = head + [[0, ["x", s0, c0, 0]]]
+                mem = fam_members({"n": 3, "ops": pre})
+                ca, cb = calls([0, 1, 2]), calls(sorted(mem[1]["nodes"]))
+                for (k1, k2, k3, c1, c2, c3) in ((0, 1, 0, ca, cb, ca), (1, 0, 1, cb, ca, cb)):
+                    for a in c1:
+                        for b in c2:
+                            for c in c3:
+                                out.append({"kind": "fam", "n": 3, "ids": "int", "ex": 1, "ops": pre + [[k1, a], [k2, b], [k3, c]]})
+    return out
+
+
 class SessRunner:
     """one real `Network` object and what the caller holds (the Node objects handed in, a dictionary passed as
     output_dict); `call(op)` performs one op of the session forms above and returns its result record(s)"""
 
-    def __init__(self, mods, strs=False, pos=None):
+    def __init__(self, mods, strs=False, pos=None, net=None, mine=None):
         self.mods = mods
         Network = mods[0]
-        self.net = Network()
-        self.mine = {}          # the Node objects handed to addNode / addEdge
+        self.net = Network() if net is None else net      # `net`: a Network the library returned (sub_network)
+        self.mine = {} if mine is None else mine          # the Node objects handed to addNode / addEdge (`mine` given: a pool shared with other networks)
         self.ud = {}            # the caller's dictionary
         self.pos = pos          # node id -> [x, y] (default: (v, 0))
         self.lab = (lambda v: None if v is None else "n%d" % v) if strs else (lambda v: v)
@@ -600,7 +778,11 @@ class SessRunner:
         net, ud, arg, unlab = self.net, self.ud, self.arg, self.unlab
         ckw = lambda c: {} if c == "none" else {"cut": nc.pynum(c)}
         k = op[0]
-        if k == "n":
+        if k in "rdlsx" and any(v is not None and self.lab(v) not in net.NODES for v in ([op[1], op[2]] if k in "rd" else [op[1]])):
+            # outside the domain (a node this network does not hold — possible only on a network the library built,
+            # whose node set the generator predicted): not called; the model answers `err` there too
+            r = "err"
+        elif k == "n":
             net.addNode(self.node(op[1])); r = "ok"
         elif k == "e":
             e = Edge(op[1], Track())
@@ -645,6 +827,10 @@ class SessRunner:
             # searches on the returned network (it shares the Node objects with `net`), then `net` goes on
             probe = [[dtok(sub.shortest_distance(a, b)) for b in ids] for a in ids]
             r = ["s", [unlab(x) for x in ids], list(sub.getEdgesId()), probe]
+        elif k == "x":
+            # sub_network whose result is KEPT by the caller (it becomes a member of the family: see impl_fam)
+            self.extracted = net.sub_network(arg(op[1], op[3]), 1e300 if op[2] == "none" else nc.pynum(op[2]), verbose=False)
+            r = ["s", [unlab(x) for x in self.extracted.getNodesId()], list(self.extracted.getEdgesId())]
         else:
             raise ValueError("unknown op %r" % (op,))
         out = [r]
@@ -681,6 +867,10 @@ class P(Prop):
         (M, "TV.C06.session_answers_pure", "in any state reached by any call sequence every call answers with the pure function of the current graph (no trace of earlier searches)"),
         (M, "TV.C06.session_distance_correct", "in any state reached by any call sequence shortest_distance(s,t[,cut]) = the minimum over permitted walks of the current graph; sentinel iff no walk"),
         (M, "TV.C06.session_tables_sound", "DISTANCES and a caller's output_dict hold only true distances through every call that does not add an edge"),
+        (M, "TV.C06.shared_nodes_search_pure", "run_routing_forward as coded (reset of the own nodes, explicit priority_dict) on Node objects carrying ANY flags — left by this network or by another network holding the same objects: output_dict entries and the flags of its own nodes are those of the pure search; foreign nodes are untouched"),
+        (M, "TV.C06.shared_nodes_call_as_private", "any call on a network whose Node objects carry any flags answers as the same network with Node objects of its own (the session model), same object afterwards up to the flags"),
+        (M, "TV.C06.family_answers_as_private", "any program over networks built on one pool of Node objects (Network(), addEdge, searches, tables, prepare, sub_network results kept and used, extracts of extracts) returns call by call what it returns with private Node objects"),
+        (M, "TV.C06.family_distance_correct", "in any state of such a family, on every member shortest_distance(s,t[,cut]) = the minimum over permitted walks of that member's own graph, sentinel iff none, whatever the other members searched in between"),
         (M, "TV.C06.tuple_order_ok", "Python's order on (priority, key) tuples is a strict weak order (what heapq needs)"),
         (M, "TV.C06.heapq_heappush", "heapq.heappush (append + _siftdown) keeps the heap invariant and adds exactly the item (permutation)"),
         (M, "TV.C06.heapq_heappop_min", "heapq.heappop (_siftup: bubble to a leaf, then _siftdown) returns a minimum of the multiset, leaves the other items, keeps the heap invariant; fails iff empty"),
@@ -700,7 +890,8 @@ class P(Prop):
                        "which IEEE round-to-nearest addition has on non-NaN doubles; they are stated with Mathlib's ordered-monoid classes, so the instance for IEEE doubles is not constructed in Lean "
                        "(the float stream compares with exact rational distances at 1e-9 relative)",
                        "save_prep / load_prep are modelled as 'the dictionary read back is the dictionary written' (numpy's pickle is exercised by the sessions, not modelled); "
-                       "sub_network in GEOMETRIC mode is outside the model",
+                       "sub_network in GEOMETRIC mode is outside the model; in the family model (shared Node objects) every member routes with Dijkstra "
+                       "(setRoutingMethod on a member of a family is not modelled: the world model has the settings, with private Node objects)",
                        "A* as coded (routing_mode = 1, a target, heuristic not 0) does not satisfy the statement (theorem astar_as_coded_inflates; finding astar-label-accumulates-heuristic, "
                        "findings/C06.json): only astar_as_coded_bounds is proved for it; exactness is proved for the repaired variant (astar_fixed_exact, exact arithmetic, no cut-off). "
                        "The Euclidean triangle inequality behind `consistent_of_scaled_metric` is a hypothesis (sqrt is a parameter of the model)"]
@@ -711,6 +902,10 @@ class P(Prop):
                 "before recording, 'other end' rule, visite guard, strict < relaxation, output_dict), shortest_distance (pair and list form, ids or Node objects, with output_dict), "
                 "all_shortest_distances (fresh or caller's dictionary), prepare, prepared_shortest_distance, has_prepared_shortest_distance, sub_network (TOPOLOGIC) — "
                 "as pure functions (Model/Graph.lean) and as a state machine over call sequences on one object (Model/GraphSession.lean); "
+                "several Network objects holding the SAME Node objects — what sub_network returns (__sub_network_routing: sub_net.addEdge(e, e.source, e.target)) and what a caller "
+                "obtains by filling two networks from one pool of nodes: one common store of poids / visite / antecedent flags, __resetFlags over the calling network's own NODES only, "
+                "the loop with the explicit priority_dict on whatever the store holds; Edge.weight as a live attribute of Edge objects shared by a network and its extracts "
+                "(Model/GraphShared.lean: routeOnPD, execSh, Fam / execFam with setWeight; the driver's `fam` command runs exactly that); "
                 "priority_dict (tracklib/core/utils.py): constructor, __setitem__ with the rebuild threshold, pop_smallest with lazy deletion, len (Model/PDict.lean) "
                 "on top of heapq's heapify / heappush / heappop with _siftdown / _siftup on the list (Model/Heapq.lean); the forward loop over the priority_dict as Model/GraphPD.lean "
                 "(proved equal to the abstract loop)")
@@ -729,6 +924,11 @@ class P(Prop):
             "cut-offs none/0/.5/1/2/3/5; ids, the network's Node objects or fresh equal Node objects as arguments; a caller's dictionary passed repeatedly as output_dict), every answer "
             "checked against Floyd-Warshall on the graph as built so far. "
             "Several (2-3) small networks alive at the same time with their calls interleaved. "
+            "Families: 1-5 Network objects on ONE pool of 3-8 Node objects — a first network (chain / tree skeleton plus extra edges, weights 0, 1/2, 1, 2, 3), networks returned by "
+            "sub_network(s, cut in 0..5 / none) that are KEPT and used like any other network (extracts of extracts too), further Network() objects filled with nodes of the pool; 6-30 calls "
+            "interleaved over all members (shortest_distance pair / list form, run_routing_forward with the flags read back, all_shortest_distances, prepare / prepared, sub_network, "
+            "addNode / addEdge on any member, edge.weight = w on an Edge object already in use — seen by every member holding it). Every member's answers are judged against Floyd-Warshall on its OWN edge list as built so far (an extract: the edges the returned object "
+            "holds); non-trivial = a distance query on a member after another member has searched (stale foreign labels on shared nodes). "
             "Worlds: 2-3 Network objects (2-5 nodes each, placed on a line, on the corners of a 3k x 4k rectangle, or all at one point, so that every distance is rational), created at "
             "random moments, 8-34 calls interleaved: the session calls above plus setRoutingMethod(0/1) and setAStarWeight(0, 1/2, 1, 3/2, 2) on individual objects; edge weights "
             "either metric (straight-line distance x 1, 3/2, 2, 3) or arbitrary. Each object's answers are judged with ITS OWN settings: Dijkstra -> the statement; A* without a target -> the "
@@ -800,6 +1000,9 @@ class P(Prop):
         s = ["all edge lists (ordered) of length 0..2 on 1..3 nodes over {src,tgt} x weights {0,1,2} x orientations {-1,0,1} (8067 graphs) x all ordered pairs x cut-offs {d-1/2, d, d+1/2 : d a distance} and none"]
         if tier == "thorough":
             s.append("all multisets of 3 edges on 1..3 nodes over the same alphabet (100482 multigraphs), edge and node insertion order shuffled")
+        s.append("families (networks sharing their Node objects): the two-way unit path 0-1-2%s as network A, B = A.sub_network(s0, c0) kept, for every s0 in {0,1,2} and c0 in {0, 1, none}; "
+                 "every sequence of three searches in the patterns A B A and B A B, each any list-form or pair-form shortest_distance on nodes the network holds (%d cases)"
+                 % (("", 6768) if tier == "quick" else (", the one-way path 0->1->2 and a path with a zero-weight and a reverse-oriented edge", len(enum_families("thorough")))))
         s.append("heapq: all lists of 0..%d tuples over priorities {0,1} x keys {0,1} (%d lists): heapify, then heappop until IndexError, the list compared after every step"
                  % ((5, 1365) if tier == "quick" else (6, 5461)))
         return s
@@ -875,6 +1078,10 @@ class P(Prop):
                 g["cuts"] = ["none"] + sorted({nc.tok(c) for c in rng.sample(allc, min(2, len(allc)))}, key=Fraction)
                 subs.append(g)
             out.append({"kind": "multi", "subs": subs})
+        # several Network objects holding the SAME Node objects (sub_network results kept and used, networks filled from one pool)
+        out += enum_families(tier)
+        for _ in range(1500 if tier == "quick" else 25000):
+            out.append(random_family(rng))
         # several Network objects with their own routing settings (setRoutingMethod / setAStarWeight), calls interleaved
         gate = not self.listed(FINDING_ASTAR)
         for _ in range(1500 if tier == "quick" else 25000):
@@ -895,6 +1102,19 @@ class P(Prop):
             tg = world_regimes(case)
             return {"kind": case["kind"], "networks": sum(1 for _, o in case["ops"] if o[0] == "c"),
                     "targeted_searches": "+".join(k for k, v in sorted(tg.items()) if v) or "none"}
+        if case["kind"] == "fam":
+            ks = [o[0] for _, o in case["ops"]]
+            # searches on a member after another member of the family has searched since this member's last search
+            last, stale = {}, 0
+            searched = None
+            for i, (k, o) in enumerate(case["ops"]):
+                if o[0] in "rdlapsx":
+                    if searched is not None and searched != k and k in last:
+                        stale += 1
+                    last[k] = i; searched = k
+            return {"kind": "fam", "members": min(5, ks.count("c") + ks.count("x")), "extracts": min(3, ks.count("x")),
+                    "search_after_foreign_search": "0" if stale == 0 else "1-3" if stale <= 3 else "4+", "ids": case.get("ids", "int"),
+                    "weight_changed": "W" in ks}
         if case["kind"] == "sess":
             ks = [o[0] for o in case["ops"]]
             first_q = next((i for i, k in enumerate(ks) if k not in "ne"), len(ks))
@@ -925,6 +1145,14 @@ class P(Prop):
                 if k in seen and o[0] in "dlarps":
                     return True
             return False
+        if case["kind"] == "fam":
+            searched = None
+            for k, o in case["ops"]:
+                if o[0] in "rdlapsx":
+                    if searched is not None and searched != k and o[0] in "rdlap":
+                        return True     # a distance query on a network after another network of the family has searched
+                    searched = k
+            return False
         if case["kind"] == "sess":
             seen_edge = False
             for o in case["ops"]:
@@ -938,25 +1166,44 @@ class P(Prop):
 
     # ---------------------------------------------------------------- implementation
     def impl_pq(self, case):
+        """`priority_dict` on its own, for the correspondence with Model/PDict.lean (never judged by the oracle: the property
+        speaks about distances). What an operation raises is part of the answer (`err` = IndexError as the model has it,
+        `exc:<type>` anything else) and is compared with the model, like the internal `_heap` list."""
         from tracklib.core.utils import priority_dict
         with nc.time_limit(3):
             pd = priority_dict({k: nc.pynum(p) for k, p in case["init"]})
             res = []
             for op in case["ops"]:
-                if op[0] == "p":
-                    try:
+                try:
+                    if op[0] == "p":
                         res.append(str(pd.pop_smallest()))
-                    except IndexError:
-                        res.append("err")
-                else:
-                    pd[op[1]] = nc.pynum(op[2])
-                    res.append(str(len(pd)))
-                res[-1] += "@" + self.heap_tok(pd._heap)
+                    else:
+                        pd[op[1]] = nc.pynum(op[2])
+                        res.append(str(len(pd)))
+                except IndexError:
+                    res.append("err")
+                except (nc.Timeout, nc.Skipped):
+                    raise
+                except Exception as e:
+                    res.append("exc:" + type(e).__name__)
+                res[-1] += "@" + self.heap_tok(getattr(pd, "_heap", None))
         return {"res": res}
 
     @staticmethod
     def heap_tok(h):
-        return "~".join("%s:%d" % (nc.tok(Fraction(v)), k) for v, k in h) or "_"
+        """the internal heap list, `(priority, key)` tuples position by position as Model/PDict.lean keeps it. It is an
+        internal of the queue: an entry of any other shape (an implementation may keep whatever it likes there) is rendered
+        opaquely — the model then disagrees (a broken correspondence), reading never raises and nothing here is judged."""
+        if not isinstance(h, (list, tuple)):
+            return "?"
+        out = []
+        for ent in h:
+            try:
+                v, k = ent
+                out.append("%s:%d" % (nc.tok(Fraction(v)), k))
+            except Exception:
+                out.append("?")
+        return "~".join(out) or "_"
 
     def impl_hq(self, case):
         import heapq
@@ -998,6 +1245,33 @@ class P(Prop):
                     res += runs[k].call(op)
         return {"res": res}
 
+    def impl_fam(self, case):
+        """several Network objects on one pool of Node objects; a network returned by sub_network is kept and used"""
+        res = []
+        with nc.time_limit(10):
+            runs, pool = [], {}
+            strs = case.get("ids", "int") == "str"
+            for k, op in case["ops"]:
+                if op[0] == "c":
+                    runs.append(SessRunner(self.mods, strs, mine=pool))
+                    res.append("ok")
+                    continue
+                if op[0] == "W":
+                    # through the network's own accessor: `members[k].getEdge(eid).weight = w`; then what every member holding an
+                    # edge of that id now carries (whether an extract shares its parent's Edge objects is the library's business)
+                    if k < len(runs) and runs[k].net.hasEdge(op[1]):
+                        runs[k].net.getEdge(op[1]).weight = nc.pynum(op[2])
+                    res.append(["w", [[j, dtok(x.net.getEdge(op[1]).weight)] for j, x in enumerate(runs) if x.net.hasEdge(op[1])]])
+                    continue
+                if k >= len(runs):        # a member that does not exist (an extraction before it was not made): as the model, `err`
+                    res += ["err"] + ([["t", []]] if has_dump(op) else [])
+                    continue
+                out = runs[k].call(op)
+                res += out
+                if op[0] == "x" and out[0] != "err":
+                    runs.append(SessRunner(self.mods, strs, net=runs[k].extracted, mine=pool))
+        return {"res": res}
+
     def impl_float(self, case):
         n = case["n"]
         with nc.time_limit(20):
@@ -1020,6 +1294,8 @@ class P(Prop):
             return self.impl_sess(case)
         if case["kind"] in ("world", "fworld"):
             return self.impl_world(case)
+        if case["kind"] == "fam":
+            return self.impl_fam(case)
         if case["kind"] == "rnd-float":
             return self.impl_float(case)
         if case["kind"] == "multi":
@@ -1108,6 +1384,19 @@ class P(Prop):
                     sub = self.requests({"kind": "sess", "n": 0, "ops": [op], "fmt": fmt})[0].split(" ")[2]
                     toks += ["%d:%s" % (k, t) for t in sub.split(";")]
             return ["C06.%s %s %s" % ("fworld" if fl else "world", nets, ";".join(toks) or "_")]
+        if case["kind"] == "fam":
+            toks = []
+            for k, op in case["ops"]:
+                if op[0] == "c":
+                    toks.append("%d:c" % k)
+                elif op[0] == "x":
+                    toks.append("%d:x,%d,%s" % (k, op[1], "none" if op[2] == "none" else nc.tok(nc.num(op[2]))))
+                elif op[0] == "W":
+                    toks.append("%d:W,%d,%s" % (k, op[1], nc.tok(nc.num(op[2]))))
+                else:
+                    sub = self.requests({"kind": "sess", "n": 0, "ops": [op]})[0].split(" ")[2]
+                    toks += ["%d:%s" % (k, t) for t in sub.split(";")]
+            return ["C06.fam %d %s" % (case["n"], ";".join(toks) or "_")]
         if case["kind"] == "sess":
             fmt = case.get("fmt") or (lambda x: nc.tok(nc.num(x)))
             ct = lambda c: "none" if c == "none" else fmt(c)
@@ -1184,7 +1473,7 @@ class P(Prop):
             if replies[0] == "bad-request":
                 raise ValueError("bad-request")
             return {"res": [] if replies[0] == "_" else replies[0].split(",")}
-        if case["kind"] in ("sess", "world", "fworld"):
+        if case["kind"] in ("sess", "world", "fworld", "fam"):
             if replies[0] == "bad-request":
                 raise ValueError("bad-request")
             # float stream: the model's doubles as the exact rationals they denote (what dtok() makes of the implementation's)
@@ -1249,9 +1538,20 @@ class P(Prop):
             m = self.spec_pq(case, impl_out)     # the reference dict agrees with the model; name what differs
             if m:
                 return m
-        if case["kind"] in ("sess", "world", "fworld") and "res" in impl_out and isinstance(model_out, dict) and "res" in model_out:
+        if case["kind"] in ("sess", "world", "fworld", "fam") and "res" in impl_out and isinstance(model_out, dict) and "res" in model_out:
             # the searches on the returned sub-network are not part of the one-object model (checked by spec_sess)
             impl_out = {"res": [r[:3] if isinstance(r, list) and r and r[0] == "s" else r for r in impl_out["res"]]}
+        if case["kind"] == "fam" and "res" in impl_out:
+            # `edge.weight = w`: the model (one Edge object per id, shared by a network and its extracts) answers `ok`;
+            # so does the implementation when every network holding an edge of that id now carries w
+            ws = iter([nc.tok(nc.num(op[2])) for _, op in case["ops"] if op[0] == "W"])
+            res = []
+            for r in impl_out["res"]:
+                if isinstance(r, list) and r and r[0] == "w":
+                    w = next(ws, None)
+                    r = "ok" if all(x[1] == w for x in r[1]) else r
+                res.append(r)
+            impl_out = {"res": res}
         return Prop.compare(self, case, impl_out, model_out)
 
     # ---------------------------------------------------------------- oracle
@@ -1269,6 +1569,8 @@ class P(Prop):
             return self.spec_sess(case, out)
         if case["kind"] in ("world", "fworld"):
             return self.spec_world(case, out)
+        if case["kind"] == "fam":
+            return self.spec_fam(case, out)
         if case["kind"] == "multi":
             for i, (sub, o) in enumerate(zip(case["subs"], out["subs"])):
                 m = self.spec(sub, o)
@@ -1384,6 +1686,51 @@ class P(Prop):
                 first_known = m
         return first_known
 
+    def spec_fam(self, case, out):
+        """several networks holding the same Node objects: every network's answers are judged, call by call, against
+        Floyd-Warshall on ITS OWN graph as built so far (`SessOracle`); a network returned by sub_network and kept is judged on
+        the edges it actually holds (`extracted_oracle`). What the other networks of the family did in between never matters."""
+        orcs = []
+        res = list(out["res"])
+        pos = 0
+        for i, (k, op) in enumerate(case["ops"]):
+            what = "call %d on network %d: %s" % (i, k, json_op(op))
+            if op[0] == "c":
+                if pos >= len(res) or res[pos] != "ok":
+                    return "%s: %s" % (what, res[pos] if pos < len(res) else "no result")
+                orcs.append(SessOracle(case["n"]))
+                pos += 1
+                continue
+            if op[0] == "W":
+                rec = res[pos] if pos < len(res) else None
+                if not (isinstance(rec, list) and rec and rec[0] == "w"):
+                    return "%s: %s" % (what, rec if rec is not None else "no result")
+                pos += 1
+                # network k's own edge now weighs w; any other network is judged on the weight ITS edge of that id carries
+                # (read back from the object: the statement does not say whether an extract shares its parent's Edge objects)
+                seen = dict((j, w) for j, w in rec[1])
+                for j, o in enumerate(orcs):
+                    hit = [e for e in o.edges if e[0] == op[1]]
+                    if not hit:
+                        continue
+                    neww = op[2] if j == k else seen.get(j)
+                    if neww is None or neww == "none":
+                        continue
+                    for e in hit:
+                        e[3] = neww
+                    o.ver += 1; o.fw = None
+                continue
+            if k >= len(orcs):      # a member that was never created (the extraction before it was not made): nothing to judge
+                pos += 2 if has_dump(op) else 1
+                continue
+            rec = res[pos] if pos < len(res) else None
+            m, _, pos = orcs[k].feed(what, op, res, pos)
+            if m:
+                return m
+            if op[0] == "x" and rec != "err":
+                orcs.append(extracted_oracle(orcs[k], rec))
+        return None
+
     def spec_pq(self, case, out):
         ref = {k: nc.num(p) for k, p in case["init"]}
         if len(out["res"]) != len(case["ops"]):
@@ -1447,6 +1794,31 @@ class P(Prop):
                 if world_valid(c) and not (gate and world_regimes(c)["astar_consistent"]):
                     yield c
             return
+        if case["kind"] == "fam":
+            ops = case["ops"]
+            for i in range(len(ops) - 1, -1, -1):
+                if ops[i][1][0] in "cx":      # dropping a creation: drop the member's calls, renumber the later members
+                    born = sum(1 for _, o in ops[:i] if o[0] in "cx")
+                    if born == 0:
+                        continue
+                    r = lambda j: j - 1 if j > born else j
+                    c = dict(case, ops=[[r(j), o] for t, (j, o) in enumerate(ops) if t != i and j != born])
+                else:
+                    c = dict(case, ops=ops[:i] + ops[i + 1:])
+                if fam_valid(c):
+                    yield c
+            for i, (k, op) in enumerate(ops):
+                if op[0] in "rdlqhsx" and op[-1] != 0:
+                    yield dict(case, ops=ops[:i] + [[k, op[:-1] + [0]]] + ops[i + 1:])
+                if op[0] in "rd" and op[4] != 0:
+                    yield dict(case, ops=ops[:i] + [[k, op[:4] + [0] + op[5:]]] + ops[i + 1:])
+                if op[0] in "rdl" and op[-3] != "none":
+                    yield dict(case, ops=ops[:i] + [[k, op[:-3] + ["none"] + op[-2:]]] + ops[i + 1:])
+                if op[0] == "e" and op[4] not in (0, 1):
+                    yield dict(case, ops=ops[:i] + [[k, op[:4] + [1, op[5]]]] + ops[i + 1:])
+            if case.get("ids") == "str":
+                yield dict(case, ids="int")
+            return
         if case["kind"] == "pq":
             for k in range(len(case["ops"])):
                 yield dict(case, ops=case["ops"][:k] + case["ops"][k + 1:])
@@ -1481,7 +1853,7 @@ class P(Prop):
             yield dict(case, cuts=cut_tokens(case, d))
 
     def mutate(self, case, rng):
-        if case["kind"] in ("pq", "hq", "sess", "multi", "world", "fworld"):
+        if case["kind"] in ("pq", "hq", "sess", "multi", "world", "fworld", "fam"):
             return
         c = nc.explicit(case)
         for k, e in enumerate(c["edges"]):
